@@ -82,7 +82,20 @@ func (g *gen) payload(variant, fid, n int) []byte {
 	return p
 }
 
+// hugeLen marks a frame whose 64-bit length field has the top bit set
+// (0x8000000000000000); no payload bytes follow.
+const hugeLen = -63
+
 func (f *pframe) build(g *gen, variant int) {
+	if f.Len == hugeLen {
+		b0 := opcode(f.Op, f.Fid)
+		if f.Fin == 1 {
+			b0 |= 0x80
+		}
+		f.raw = []byte{b0, 127, 0x80, 0, 0, 0, 0, 0, 0, 0}
+		f.hlen = 10
+		return
+	}
 	f.payload = g.payload(variant, f.Fid, f.Len)
 	var h [14]byte
 	b0 := opcode(f.Op, f.Fid)
@@ -137,6 +150,9 @@ func pieces(n int) []int {
 }
 
 func (f *pframe) cellSizes() []int {
+	if f.Len == hugeLen {
+		return []int{1, 1, 1, 6, 1}
+	}
 	ext := 0
 	if f.Len > 65535 {
 		ext = 8
@@ -160,7 +176,7 @@ func project(frames []*pframe, b []byte) (toks []int, ok int) {
 		fid := int(b[pos]) - 0x10
 		var f *pframe
 		for _, c := range frames {
-			if c.Len > 0 && (c.Fid == fid || (c.Mk == 1 && c.onwire[0] == b[pos])) {
+			if c.Len > 0 && len(c.payload) == c.Len && (c.Fid == fid || (c.Mk == 1 && c.onwire[0] == b[pos])) {
 				if pos+c.Len <= len(b) && (bytes.Equal(b[pos:pos+c.Len], c.payload) || bytes.Equal(b[pos:pos+c.Len], c.onwire)) {
 					f = c
 					break
